@@ -6,7 +6,7 @@ allvars == <<sc, path, t, fin, out>>
 
 CNeg1 == -1
 Steady(id) == CASE id = "L1" -> <<R(2)>> [] id = "L2" -> <<R(2)>> [] id = "L3" -> <<RZero, RZero>>
-                [] id = "L6" -> <<RZero, R(1)>> [] id = "L9" -> <<R(-2)>> [] id = "L4" -> <<R(2)>>
+                [] id = "L6" -> <<RZero, R(1)>> [] id = "L9" -> <<R(-2)>> [] id = "L4" -> <<R(2)>> [] id = "L10" -> <<R(2), R(2)>>
 \* Deep selects the larger scenario sets of the thorough tier (overridden in the .thorough.cfg files: Deep <- DeepOn)
 Deep == FALSE
 DeepOn == TRUE
@@ -32,8 +32,10 @@ WProf(id) == [s \in 1..(TN + H + 2) |-> [j \in 1..Len(Model(id).mshocks) |-> IF 
 Scenarios == UNION {{[id |-> id, dev |-> dv, init |-> ini, u |-> us, a |-> as] :
                         dv \in BOOLEAN, ini \in InitDevs(id), us \in UProfiles(id), as \in AProfiles(id)} : id \in SolvableIds}
 
-InitPath(s) == LET base == IF s.dev THEN RZeroVec(Len(Model(s.id).vars)) ELSE Steady(s.id) IN
-    [k \in CNeg1..0 |-> RVecAdd(base, IF k = 0 THEN s.init[1] ELSE s.init[2])]
+InitPath(s) == LET base == IF s.dev THEN RZeroVec(Len(Model(s.id).vars)) ELSE Steady(s.id)
+                   p == [k \in CNeg1..0 |-> RVecAdd(base, IF k = 0 THEN s.init[1] ELSE s.init[2])] IN
+    \* in L10 the second variable is the first one a period earlier: the initial window has to say so
+    IF s.id = "L10" THEN [p EXCEPT ![0] = <<p[0][1], p[CNeg1][1]>>] ELSE p
 
 Init == sc \in Scenarios /\ path = InitPath(sc) /\ t = 0 /\ fin = FALSE /\ out = <<>>
 Step == /\ t < TN /\ ~fin
@@ -46,7 +48,7 @@ Step == /\ t < TN /\ ~fin
                                 mshocks |-> Model(sc.id).mshocks, steady |-> Steady(sc.id),
                                 u |-> [k \in 1..TN |-> Prof(sc.id, sc.u)[k]], a |-> [k \in 1..(TN + 2) |-> Prof(sc.id, sc.a)[k]],
                                 w |-> [k \in 1..TN |-> WProf(sc.id)[k]],
-                                eqs |-> Model(sc.id).eqs, T |-> Model(sc.id).T, K |-> Model(sc.id).K,
+                                eqs |-> Model(sc.id).eqs, meqs |-> Model(sc.id).meqs, T |-> Model(sc.id).T, K |-> Model(sc.id).K,
                                 cont |-> [j \in 1..2 |-> Expect(sc.id, x, Prof(sc.id, sc.a), TN, j, sc.dev)],
                                 breaks |-> {1} \cup {s \in 1..TN : \E j \in 1..Len(Model(sc.id).shocks) : Prof(sc.id, sc.u)[s][j] # RZero},
                                 meas |-> [k \in 1..TN |-> MeasAt(sc.id, np, WProf(sc.id), k, sc.dev)],
@@ -62,7 +64,7 @@ Inv_StructuralHolds == t >= 1 => \A i \in 1..Len(Model(sc.id).eqs) :
 Inv_Steady == t = 0 => SteadyOk(sc.id, Steady(sc.id))
 \* a level simulation is the steady state plus the deviation simulation of the same shocks
 RECURSIVE DevPath(_, _)
-DevPath(s, k) == IF k <= 0 THEN (IF k = 0 THEN s.init[1] ELSE s.init[2])
+DevPath(s, k) == IF k <= 0 THEN InitPath([s EXCEPT !.dev = TRUE])[k]
                  ELSE StepX(s.id, DevPath(s, k - 1), Prof(s.id, s.u)[k], Prof(s.id, s.a), k, TRUE)
 Inv_LevelIsSteadyPlusDeviation == (fin /\ ~sc.dev) => \A k \in 1..TN : path[k] = RVecAdd(Steady(sc.id), DevPath(sc, k))
 \* the path does not explode: the stable root governs the propagation (checked on the certificate: |T| rows sum below 1 ...)
